@@ -42,12 +42,18 @@ import (
 	tmproto "github.com/tendermint/tendermint/proto/tendermint/types"
 	tmprotoversion "github.com/tendermint/tendermint/proto/tendermint/version"
 	tmtypes "github.com/tendermint/tendermint/types"
+	"github.com/tendermint/tendermint/libs/log"
 	dbm "github.com/tendermint/tm-db"
 
+	"github.com/cosmos/cosmos-sdk/simapp"
 	"github.com/cosmos/cosmos-sdk/store/rootmulti"
 	sdk "github.com/cosmos/cosmos-sdk/types"
 
+	"github.com/tharsis/ethermint/encoding"
+
 	"github.com/teleport-network/teleport/app"
+	xibc "github.com/teleport-network/teleport/x/xibc"
+	xibctypes "github.com/teleport-network/teleport/x/xibc/types"
 	xibctm "github.com/teleport-network/teleport/x/xibc/clients/light-clients/tendermint/types"
 	clienttypes "github.com/teleport-network/teleport/x/xibc/core/client/types"
 	commitmenttypes "github.com/teleport-network/teleport/x/xibc/core/commitment/types"
@@ -55,8 +61,9 @@ import (
 )
 
 const (
-	c07Client  = "cpchain"
-	c07NKeys   = 12
+	c07Default = "cpchain" // the client addressed until a `use` op names another one
+	c07NKeys   = 12  // keys of the random streams
+	c07NBig    = 140 // further keys, for validator sets of more than a hundred entries
 	c07MaxTot  = int64(math.MaxInt64 / 8)
 	c07SrcName = "cpchain"
 	c07DstName = "teleport"
@@ -80,10 +87,10 @@ func c07Init() {
 	if c07Keys != nil {
 		return
 	}
-	c07Keys = make([]c07Key, c07NKeys+1)
+	c07Keys = make([]c07Key, c07NBig+1)
 	c07KeyByPB = map[string]int{}
 	c07AddrID = map[string]int{}
-	for i := 1; i <= c07NKeys; i++ {
+	for i := 1; i <= c07NBig; i++ {
 		priv := tmed25519.GenPrivKeyFromSecret([]byte(fmt.Sprintf("c07-validator-key-%d", i)))
 		pub := priv.PubKey()
 		pb, err := cryptoenc.PubKeyToProto(pub)
@@ -264,7 +271,7 @@ func c07AbsHeader(now int64, h *xibctm.Header, signers []int) (string, []c07SigI
 			}
 			good := false
 			fl := int(s.BlockIdFlag)
-			if c != nil && signer >= 1 && signer <= c07NKeys && fl >= 1 && fl <= 3 {
+			if c != nil && signer >= 1 && signer <= c07NBig && fl >= 1 && fl <= 3 {
 				pan, _ := safely(func() {
 					good = c07Keys[signer].pub.VerifySignature(c.VoteSignBytes(ph.ChainID, int32(i)), s.Signature)
 				})
@@ -280,8 +287,12 @@ func c07AbsHeader(now int64, h *xibctm.Header, signers []int) (string, []c07SigI
 	return strings.Join(parts, " "), infos
 }
 
+// "upd" = keeper UpdateClient, "updm" = MsgUpdateClient through ValidateBasic and the msg server
+var c07Verb = func() string { return "upd" }
+
 func c07UpdLine(now int64, h *xibctm.Header, signers []int) string {
 	abs, _ := c07AbsHeader(now, h, signers)
+	abs = c07Verb() + strings.TrimPrefix(abs, "upd")
 	bz, err := h.Marshal()
 	if err != nil {
 		panic(err)
@@ -412,8 +423,14 @@ type c07World struct {
 	ctx    sdk.Context
 	hist   []string
 	pf     *c07Proof
-	cs     *xibctm.ClientState // as created (configuration part is immutable)
+	cs     *xibctm.ClientState // configuration of the current client (as created / upgraded)
 	exists bool
+	cur    string                         // chain name of the client the ops address
+	all    map[string]*xibctm.ClientState // every client created in this history (nil entry = not created)
+	dry    bool                           // inside a discarded execution
+	signer sdk.AccAddress
+	app0   *app.Teleport // the pristine app every history starts from (a whole-app restart replaces w.app for the rest of one history)
+	base0  sdk.Context
 }
 
 func newC07World(t *testing.T) *c07World {
@@ -422,15 +439,76 @@ func newC07World(t *testing.T) *c07World {
 	ctx := a.BaseApp.NewContext(false, tmproto.Header{Height: 10, ChainID: "teleport_9000-1", Time: time.Unix(1600000000, 0).UTC()})
 	w := &c07World{t: t, app: a, base: ctx}
 	w.pf = c07MakeProof(t, a)
+	w.setupRelayer()
+	w.app0, w.base0 = w.app, w.base
 	w.reset()
 	return w
 }
 
+var c07Names = []string{c07Default, "cpchainb", "mirror", "CPCHAIN"}
+
+// one relayer authorised for every client name the histories use (authorisation itself is C06's subject)
+func (w *c07World) setupRelayer() {
+	w.signer = sdk.AccAddress(tmhash.SumTruncated([]byte("c07 relayer")))
+	w.app.XIBCKeeper.ClientKeeper.RegisterRelayers(w.base, w.signer.String(), c07Names, make([]string, len(c07Names)))
+}
+
 func (w *c07World) reset() {
+	w.app, w.base = w.app0, w.base0
 	w.ctx, _ = w.base.CacheContext()
 	w.hist = nil
 	w.exists = false
 	w.cs = nil
+	w.cur = c07Default
+	w.all = map[string]*xibctm.ClientState{}
+}
+
+func (w *c07World) use(name string) {
+	w.cur = name
+	w.cs = w.all[name]
+	w.exists = w.cs != nil
+}
+
+func (w *c07World) snapOf(ctx sdk.Context, name string) *c07Snap {
+	cur := w.cur
+	w.cur = name
+	s := w.snap(ctx)
+	w.cur = cur
+	return s
+}
+
+func (w *c07World) names() []string {
+	var ns []string
+	for n, cs := range w.all {
+		if cs != nil {
+			ns = append(ns, n)
+		}
+	}
+	sort.Strings(ns)
+	return ns
+}
+
+func (w *c07World) dumpAll(ctx sdk.Context) string {
+	var parts []string
+	for _, n := range w.names() {
+		parts = append(parts, hxs(n)+"{"+w.snapOf(ctx, n).dump()+"}")
+	}
+	if len(parts) == 0 {
+		return "-"
+	}
+	return strings.Join(parts, " ")
+}
+
+// digest of everything the client keeper stores under clients/ (all clients, all metadata), for the restart oracle
+func (w *c07World) rawClients(ctx sdk.Context) map[string]string {
+	m := map[string]string{}
+	st := ctx.KVStore(w.app.GetKey(host.StoreKey))
+	it := sdk.KVStorePrefixIterator(st, host.KeyClientStorePrefix)
+	defer it.Close()
+	for ; it.Valid(); it.Next() {
+		m[string(it.Key())] = string(it.Value())
+	}
+	return m
 }
 
 func c07H(h clienttypes.Height) string {
@@ -451,7 +529,7 @@ func c07KeyHeight(b []byte) clienttypes.Height {
 
 func (w *c07World) snap(ctx sdk.Context) *c07Snap {
 	s := &c07Snap{cons: map[clienttypes.Height]c07Cons{}, ptime: map[clienttypes.Height]uint64{}, iter: map[clienttypes.Height]bool{}}
-	store := w.app.XIBCKeeper.ClientKeeper.ClientStore(ctx, c07Client)
+	store := w.app.XIBCKeeper.ClientKeeper.ClientStore(ctx, w.cur)
 	it := store.Iterator(nil, nil)
 	defer it.Close()
 	cp := []byte(host.KeyConsensusStatePrefix + "/")
@@ -571,23 +649,272 @@ func (w *c07World) find(r *Rec, sig, what, obs, req string) {
 
 func (w *c07World) apply(r *Rec, op string) string {
 	f := strings.Fields(op)
-	w.hist = append(w.hist, op)
+	if !w.dry {
+		w.hist = append(w.hist, op)
+	}
 	switch f[0] {
 	case "reset":
 		w.reset()
 		w.hist = []string{op}
 		return "ok"
-	case "create":
-		return w.create(r, f)
-	case "upgrade":
-		return w.upgrade(r, f)
-	case "upd":
-		return w.update(r, op, f)
-	case "vfy", "vfa":
-		return w.verify(r, f)
+	case "use":
+		w.use(string(unhx(f[1])))
+		return "ok"
+	case "dry":
+		return w.discarded(r, strings.TrimPrefix(op, "dry "))
+	case "restart":
+		return w.restart(r)
+	case "restartapp":
+		return w.restartApp(r)
 	}
-	w.t.Fatalf("bad op %q", op)
-	return ""
+	// frame: an op addressed to one client leaves every other client of the store untouched
+	others := map[string]string{}
+	for _, n := range w.names() {
+		if n != w.cur {
+			others[n] = w.snapOf(w.ctx, n).dump()
+		}
+	}
+	var out string
+	verb := f[0]
+	switch f[0] {
+	case "create":
+		out = w.create(r, f)
+	case "upgrade":
+		out = w.upgrade(r, f)
+	case "upd", "updm":
+		out = w.update(r, op, f)
+	case "vfy", "vfa":
+		out = w.verify(r, f)
+	default:
+		w.t.Fatalf("bad op %q", op)
+	}
+	for n, before := range others {
+		if after := w.snapOf(w.ctx, n).dump(); after != before {
+			w.find(r, "C07:other-client-changed:"+verb, "an operation on client "+w.cur+" changed client "+n, after, before)
+		}
+	}
+	if len(others) > 0 {
+		r.Count("frame.checked." + verb)
+	}
+	return out
+}
+
+// the op runs on a cache context that is dropped (simulation, CheckTx, proposal dry run, failed multi-message tx)
+func (w *c07World) discarded(r *Rec, inner string) string {
+	if w.dry {
+		w.t.Fatalf("nested dry op")
+	}
+	before := w.rawClients(w.ctx)
+	saveCtx, saveCur, saveCS, saveEx := w.ctx, w.cur, w.cs, w.exists
+	saveAll := map[string]*xibctm.ClientState{}
+	for k, v := range w.all {
+		saveAll[k] = v
+	}
+	w.ctx, _ = w.ctx.CacheContext()
+	w.dry = true
+	out := w.apply(r, inner)
+	w.dry = false
+	w.ctx, w.cur, w.cs, w.exists, w.all = saveCtx, saveCur, saveCS, saveEx, saveAll
+	after := w.rawClients(w.ctx)
+	if !c07SameMap(before, after) {
+		w.find(r, "C07:discarded-execution-had-effect", "an operation executed on a dropped cache context changed the client store", c07MapDiff(before, after), "no change")
+	}
+	r.Count("dry")
+	r.Count("dry." + strings.Fields(inner)[0])
+	if i := strings.Index(out, " "); i > 0 {
+		out = out[:i] + out[i:] // verdict and dump of the discarded branch
+	}
+	return "dry " + out
+}
+
+func c07SameMap(a, b map[string]string) bool {
+	if len(a) != len(b) {
+		return false
+	}
+	for k, v := range a {
+		if w, ok := b[k]; !ok || w != v {
+			return false
+		}
+	}
+	return true
+}
+
+func c07MapDiff(a, b map[string]string) string {
+	var ks []string
+	for k := range a {
+		if v, ok := b[k]; !ok {
+			ks = append(ks, "lost:"+hx([]byte(k)))
+		} else if v != a[k] {
+			ks = append(ks, "changed:"+hx([]byte(k)))
+		}
+	}
+	for k := range b {
+		if _, ok := a[k]; !ok {
+			ks = append(ks, "new:"+hx([]byte(k)))
+		}
+	}
+	sort.Strings(ks)
+	if len(ks) > 6 {
+		ks = ks[:6]
+	}
+	return strings.Join(ks, " ")
+}
+
+// family of a client-store key, for stable finding signatures
+func c07KeyFamily(k string) string {
+	switch {
+	case strings.Contains(k, "/"+host.KeyClientState):
+		return "client-state"
+	case strings.HasSuffix(k, string(xibctm.KeyProcessedTime)):
+		return "processed-time"
+	case strings.Contains(k, "/"+xibctm.KeyIterateConsensusStatePrefix):
+		return "iteration-key"
+	case strings.Contains(k, "/"+host.KeyConsensusStatePrefix+"/"):
+		return "consensus-state"
+	}
+	return "other"
+}
+
+func (w *c07World) restartOracle(r *Rec, kind string, before, after map[string]string) {
+	fam := map[string]bool{}
+	for k, v := range before {
+		if a, ok := after[k]; !ok {
+			fam["lost:"+c07KeyFamily(k)] = true
+		} else if a != v {
+			fam["changed:"+c07KeyFamily(k)] = true
+		}
+	}
+	for k := range after {
+		if _, ok := before[k]; !ok {
+			fam["new:"+c07KeyFamily(k)] = true
+		}
+	}
+	for f := range fam {
+		w.find(r, "C07:"+kind+"-changed-client-store:"+f, "export + import changed what the Tendermint clients store ("+f+")", c07MapDiff(before, after), "identical client states, consensus states, processed times and iteration keys")
+	}
+	revs := map[uint64]bool{}
+	for _, n := range w.names() {
+		sn := w.snapOf(w.ctx, n)
+		for h := range sn.cons {
+			revs[h.RevisionNumber] = true
+			if sn.latest.LT(h) {
+				r.Count(kind + ".with-state-above-latest")
+			}
+		}
+		if len(sn.iter) != len(sn.cons) || len(sn.ptime) != len(sn.cons) {
+			r.Count(kind + ".with-uneven-metadata")
+		}
+	}
+	if len(revs) > 1 {
+		r.Count(kind + ".multi-revision")
+	}
+	if len(w.names()) > 1 {
+		r.Count(kind + ".two-clients")
+	}
+}
+
+// module level: xibc ExportGenesis -> JSON through the app codec -> Validate -> emptied xibc store -> InitGenesis
+func (w *c07World) restart(r *Rec) string {
+	before := w.rawClients(w.ctx)
+	cctx, write := w.ctx.CacheContext()
+	var verr error
+	pan, msg := safely(func() {
+		gs := xibc.ExportGenesis(cctx, *w.app.XIBCKeeper)
+		cdc := w.app.AppCodec()
+		var gs2 xibctypes.GenesisState
+		cdc.MustUnmarshalJSON(cdc.MustMarshalJSON(gs), &gs2)
+		if verr = gs2.Validate(); verr != nil {
+			return
+		}
+		st := cctx.KVStore(w.app.GetKey(host.StoreKey))
+		var ks [][]byte
+		it := sdk.KVStorePrefixIterator(st, nil)
+		for ; it.Valid(); it.Next() {
+			ks = append(ks, append([]byte{}, it.Key()...))
+		}
+		it.Close()
+		for _, kk := range ks {
+			st.Delete(kk)
+		}
+		xibc.InitGenesis(cctx, *w.app.XIBCKeeper, false, &gs2)
+	})
+	if pan || verr != nil {
+		r.Count("restart.failed")
+		w.find(r, "C07:restart-export-not-importable", "the exported xibc genesis of a state with Tendermint clients fails validation / InitGenesis", fmt.Sprintf("panic=%v %s err=%v", pan, msg, verr), "export -> validate -> import succeeds")
+		return "err"
+	}
+	if !w.dry {
+		write()
+	}
+	r.Count("restart")
+	w.restartOracle(r, "restart", before, w.rawClients(cctx))
+	return "ok " + w.dumpAll(w.ctx)
+}
+
+// whole app: the history's state is committed in a fresh app, app.ExportAppStateAndValidators, a second fresh app is
+// initialised from the export (every module's InitGenesis); the history continues on the new app
+func (w *c07World) restartApp(r *Rec) string {
+	if w.dry {
+		w.t.Fatalf("restartapp inside dry")
+	}
+	before := w.rawClients(w.ctx)
+	var failure string
+	var app2 *app.Teleport
+	pan, msg := safely(func() {
+		app1 := app.Setup(false, nil)
+		hdr := tmproto.Header{Height: 1, ChainID: "teleport_9000-1", Time: time.Unix(1600000000, 0).UTC()}
+		c1 := app1.BaseApp.NewContext(false, hdr)
+		// the xibc store of the history, as it is, becomes the xibc store of the chain that is exported
+		dst := c1.KVStore(app1.GetKey(host.StoreKey))
+		src := w.ctx.KVStore(w.app.GetKey(host.StoreKey))
+		var ks [][]byte
+		it := sdk.KVStorePrefixIterator(dst, nil)
+		for ; it.Valid(); it.Next() {
+			ks = append(ks, append([]byte{}, it.Key()...))
+		}
+		it.Close()
+		for _, k := range ks {
+			dst.Delete(k)
+		}
+		it = sdk.KVStorePrefixIterator(src, nil)
+		for ; it.Valid(); it.Next() {
+			dst.Set(append([]byte{}, it.Key()...), append([]byte{}, it.Value()...))
+		}
+		it.Close()
+		app1.Commit()
+		exported, err := app1.ExportAppStateAndValidators(false, nil)
+		if err != nil {
+			failure = "export: " + err.Error()
+			return
+		}
+		app2 = app.NewTeleport(log.NewNopLogger(), dbm.NewMemDB(), nil, true, map[int64]bool{}, app.DefaultNodeHome, 5,
+			encoding.MakeConfig(app.ModuleBasics), simapp.EmptyAppOptions{})
+		app2.InitChain(abci.RequestInitChain{
+			ChainId:         "teleport_9000-1",
+			Time:            hdr.Time,
+			InitialHeight:   exported.Height,
+			Validators:      []abci.ValidatorUpdate{},
+			ConsensusParams: exported.ConsensusParams,
+			AppStateBytes:   exported.AppState,
+		})
+	})
+	if pan {
+		failure = "panic: " + msg
+	}
+	if failure != "" {
+		if len(failure) > 500 {
+			failure = failure[:500]
+		}
+		r.Count("restartapp.failed")
+		w.find(r, "C07:restartapp-failed", "whole-app export / InitChain of the exported genesis failed", failure, "a chain hosting Tendermint clients can be restarted from its exported state")
+		return "err"
+	}
+	w.app = app2
+	w.base = app2.BaseApp.NewContext(false, tmproto.Header{Height: 10, ChainID: "teleport_9000-1", Time: time.Unix(1600000000, 0).UTC()})
+	w.ctx, _ = w.base.CacheContext()
+	r.Count("restartapp")
+	w.restartOracle(r, "restartapp", before, w.rawClients(w.ctx))
+	return "ok " + w.dumpAll(w.ctx)
 }
 
 func c07ParseI(s string) int64 {
@@ -606,55 +933,80 @@ func c07ParseU(s string) uint64 {
 	return v
 }
 
-func (w *c07World) create(r *Rec, f []string) string {
+func c07ParseClient(f []string) (*xibctm.ClientState, *xibctm.ConsensusState, int64) {
 	now := c07ParseI(f[12])
 	latest := clienttypes.NewHeight(c07ParseU(f[7]), c07ParseU(f[8]))
 	cs := xibctm.NewClientState(string(unhx(f[1])), xibctm.Fraction{Numerator: c07ParseU(f[2]), Denominator: c07ParseU(f[3])},
 		time.Duration(c07ParseI(f[4])), time.Duration(c07ParseI(f[4]))+time.Hour, time.Duration(c07ParseI(f[5])), latest,
 		commitmenttypes.GetSDKSpecs(), commitmenttypes.MerklePrefix{KeyPrefix: []byte(host.StoreKey)}, c07ParseU(f[6]))
-	if err := cs.Validate(); err != nil {
-		// the generator varies only the trust level among the validated fields
+	cons := &xibctm.ConsensusState{Timestamp: time.Unix(0, c07ParseI(f[9])).UTC(), Root: unhx(f[10]), NextValidatorsHash: unhx(f[11])}
+	return cs, cons, now
+}
+
+// CreateClientProposal as governance executes it: ValidateBasic (stateless), then the keeper's HandleCreateClient
+func (w *c07World) create(r *Rec, f []string) string {
+	cs, cons, now := c07ParseClient(f)
+	p, err := clienttypes.NewCreateClientProposal("t", "d", w.cur, cs, cons)
+	if err != nil {
+		w.t.Fatal(err)
+	}
+	if err := p.ValidateBasic(); err != nil {
 		r.Count("create.rejected")
-		w.exists = false
 		return "rej"
 	}
-	cons := &xibctm.ConsensusState{Timestamp: time.Unix(0, c07ParseI(f[9])).UTC(), Root: unhx(f[10]), NextValidatorsHash: unhx(f[11])}
-	ctx := w.ctx.WithBlockTime(time.Unix(0, now).UTC())
-	if err := w.app.XIBCKeeper.ClientKeeper.CreateClient(ctx, c07Client, cs, cons); err != nil {
-		w.t.Fatalf("CreateClient: %v", err)
+	cctx, write := w.ctx.WithBlockTime(time.Unix(0, now).UTC()).CacheContext()
+	var herr error
+	pan, _ := safely(func() { _, herr = w.app.XIBCKeeper.ClientKeeper.HandleCreateClient(cctx, p) })
+	if pan || herr != nil {
+		r.Count("create.rejected")
+		if !w.exists {
+			// a valid proposal for a name no client has (names that differ only in case are different names)
+			w.find(r, "C07:create-refused-for-free-name", "a valid create-client proposal was refused although no client has that name", fmt.Sprintf("panic=%v err=%v", pan, herr), "client created")
+		}
+		if w.exists {
+			r.Count("create.rejected.name-taken")
+		}
+		return "rej"
 	}
+	if w.exists {
+		w.find(r, "C07:create-over-existing-client", "a create-client proposal replaced an existing client", w.cur, "refused")
+	}
+	write()
 	w.cs = cs
 	w.exists = true
+	w.all[w.cur] = cs
+	w.configOracle(r, "create", cs)
 	r.Count("create")
 	return "ok " + w.snap(w.ctx).dump()
 }
 
-// keeper UpgradeClient (what an UpgradeClientProposal executes after ClientState.Validate): the client state is replaced,
-// the consensus state and its metadata are written at the new latest height; older consensus states stay
+// UpgradeClientProposal: ValidateBasic, then HandleUpgradeClient -> keeper UpgradeClient + tendermint UpgradeState: the client
+// state is replaced, the consensus state and its metadata are written at the new latest height; older consensus states stay
 func (w *c07World) upgrade(r *Rec, f []string) string {
 	if !w.exists {
 		return "bad-op"
 	}
-	now := c07ParseI(f[12])
-	latest := clienttypes.NewHeight(c07ParseU(f[7]), c07ParseU(f[8]))
-	cs := xibctm.NewClientState(string(unhx(f[1])), xibctm.Fraction{Numerator: c07ParseU(f[2]), Denominator: c07ParseU(f[3])},
-		time.Duration(c07ParseI(f[4])), time.Duration(c07ParseI(f[4]))+time.Hour, time.Duration(c07ParseI(f[5])), latest,
-		commitmenttypes.GetSDKSpecs(), commitmenttypes.MerklePrefix{KeyPrefix: []byte(host.StoreKey)}, c07ParseU(f[6]))
-	if err := cs.Validate(); err != nil {
+	cs, cons, now := c07ParseClient(f)
+	latest := cs.LatestHeight
+	p, err := clienttypes.NewUpgradeClientProposal("t", "d", w.cur, cs, cons)
+	if err != nil {
+		w.t.Fatal(err)
+	}
+	if err := p.ValidateBasic(); err != nil {
 		r.Count("upgrade.rejected")
 		return "rej"
 	}
-	cons := &xibctm.ConsensusState{Timestamp: time.Unix(0, c07ParseI(f[9])).UTC(), Root: unhx(f[10]), NextValidatorsHash: unhx(f[11])}
 	pre := w.snap(w.ctx)
 	cctx, write := w.ctx.WithBlockTime(time.Unix(0, now).UTC()).CacheContext()
-	var err error
-	pan, _ := safely(func() { err = w.app.XIBCKeeper.ClientKeeper.UpgradeClient(cctx, c07Client, cs, cons) })
+	pan, _ := safely(func() { _, err = w.app.XIBCKeeper.ClientKeeper.HandleUpgradeClient(cctx, p) })
 	if pan || err != nil {
 		r.Count("upgrade.rejected")
 		return "rej"
 	}
 	write()
 	w.cs = cs
+	w.all[w.cur] = cs
+	w.configOracle(r, "upgrade", cs)
 	r.Count("upgrade")
 	switch {
 	case latest.RevisionNumber > pre.latest.RevisionNumber && latest.RevisionHeight < pre.latest.RevisionHeight:
@@ -664,7 +1016,19 @@ func (w *c07World) upgrade(r *Rec, f []string) string {
 	case latest.RevisionNumber > pre.latest.RevisionNumber:
 		r.Count("upgrade.new-revision.larger-revision-height")
 	}
+	if _, had := pre.cons[latest]; had {
+		r.Count("upgrade.over-stored-height")
+	}
 	return "ok " + w.snap(w.ctx).dump()
+}
+
+// what the soundness statements assume of an installed configuration: a trust level in [1/3, 1] that fits int64
+func (w *c07World) configOracle(r *Rec, kind string, cs *xibctm.ClientState) {
+	n, d := new(big.Int).SetUint64(cs.TrustLevel.Numerator), new(big.Int).SetUint64(cs.TrustLevel.Denominator)
+	ok := d.Sign() > 0 && n.Cmp(d) <= 0 && new(big.Int).Mul(n, big.NewInt(3)).Cmp(d) >= 0 && n.IsInt64() && d.IsInt64()
+	if !ok {
+		w.find(r, "C07:invalid-trust-level-installed:"+kind, "a "+kind+" proposal installed a trust level outside [1/3, 1] or beyond int64", fmt.Sprintf("%d/%d", cs.TrustLevel.Numerator, cs.TrustLevel.Denominator), "refused by ValidateBasic")
+	}
 }
 
 func c07SetPower(vs *tmproto.ValidatorSet, infos []c07SigInfo) (signed, total *big.Int) {
@@ -718,6 +1082,8 @@ func (w *c07World) update(r *Rec, op string, f []string) string {
 		}
 	}
 	abs, infos := c07AbsHeader(now, hdr, signers)
+	viaMsg := f[0] == "updm"
+	f[0] = "upd"
 	if abs != strings.Join(f[:bar], " ") {
 		w.t.Fatalf("abstract part of the op does not describe its payload:\n op  %s\n abs %s", strings.Join(f[:bar], " "), abs)
 	}
@@ -734,7 +1100,28 @@ func (w *c07World) update(r *Rec, op string, f []string) string {
 	ctx := w.ctx.WithBlockTime(time.Unix(0, now).UTC())
 	cctx, write := ctx.CacheContext()
 	var uerr error
-	pan, _ := safely(func() { uerr = w.app.XIBCKeeper.ClientKeeper.UpdateClient(cctx, c07Client, hdr) })
+	pan, _ := safely(func() {
+		if !viaMsg {
+			uerr = w.app.XIBCKeeper.ClientKeeper.UpdateClient(cctx, w.cur, hdr)
+			return
+		}
+		// the transaction path: MsgUpdateClient.ValidateBasic (ante handler), then the msg server
+		msg, err := clienttypes.NewMsgUpdateClient(w.cur, hdr, w.signer)
+		if err != nil {
+			w.t.Fatal(err)
+		}
+		if uerr = msg.ValidateBasic(); uerr != nil {
+			r.Count("updm.rejected-by-validate-basic")
+			return
+		}
+		_, uerr = w.app.XIBCKeeper.UpdateClient(sdk.WrapSDKContext(cctx), msg)
+		if uerr != nil {
+			r.Count("updm.rejected-by-keeper")
+		}
+	})
+	if viaMsg {
+		r.Count("updm")
+	}
 	if pan {
 		r.Count("upd.panic")
 		return "rej"
@@ -746,6 +1133,12 @@ func (w *c07World) update(r *Rec, op string, f []string) string {
 	}
 	write()
 	r.Count("upd.accepted")
+	if viaMsg {
+		r.Count("updm.accepted")
+	}
+	if _, had := pre.cons[clienttypes.NewHeight(clienttypes.ParseChainID(hdr.Header.ChainID), uint64(hdr.Header.Height))]; had {
+		r.Count("upd.accepted.over-stored-height")
+	}
 	post := w.snap(w.ctx)
 	w.oracleUpdate(r, now, hdr, infos, pre, post)
 	return "ok " + post.dump()
@@ -946,11 +1339,11 @@ func (w *c07World) verify(r *Rec, f []string) string {
 	}
 	snap := w.snap(w.ctx)
 	ctx := w.ctx.WithBlockTime(time.Unix(0, now).UTC())
-	csI, found := w.app.XIBCKeeper.ClientKeeper.GetClientState(ctx, c07Client)
+	csI, found := w.app.XIBCKeeper.ClientKeeper.GetClientState(ctx, w.cur)
 	if !found {
 		w.t.Fatal("client state missing")
 	}
-	store := w.app.XIBCKeeper.ClientKeeper.ClientStore(ctx, c07Client)
+	store := w.app.XIBCKeeper.ClientKeeper.ClientStore(ctx, w.cur)
 	// classification of the case by the harness's own reading of the store (for the distribution, not for the verdict)
 	c, ok := snap.cons[h]
 	pt, okp := snap.ptime[h]
@@ -1224,6 +1617,7 @@ type c07Req struct {
 	tvalsProp int
 	valsProp  int
 	first     bool // directed cases: mutate the first signature (no early exit before it)
+	pre       bool // header mutations 1..25 before signing (a consistent, differently-valued header)
 }
 
 func c07MakeBlockID(hash []byte) tmtypes.BlockID {
@@ -1318,7 +1712,7 @@ func (g *c07Gen) build(q *c07Req) (*xibctm.Header, []int) {
 			h.ChainID = []string{strings.Repeat("c", 51) + "-1", "cpchain-18446744073709551616", "cpchain-99999999999999999999999", g.chainID + "\n", "-1", ""}[g.rn(6)]
 		}
 	}
-	if mut >= 1 && mut <= 25 && g.rn(2) == 0 { // before signing: a consistent, differently-valued header
+	if mut >= 1 && mut <= 25 && (q.pre || g.rn(2) == 0) { // before signing: a consistent, differently-valued header
 		mutHdr(mut, &th)
 		mut = 0
 	}
@@ -1689,17 +2083,56 @@ func TestC07(t *testing.T) {
 		hist = int(n)
 	}
 	g := &c07Gen{r: r, w: w}
-	c07Exhaustive(g, run)
-	c07Directed(g, run)
-	c07DirectedExpiry(g, run)
-	c07DirectedConfigEdges(g, run)
-	c07DirectedMultiRev(g, run)
-	c07DirectedVerifyMatrix(g, run)
+	c07Verb = func() string {
+		if r.Rng.Intn(2) == 0 {
+			return "updm"
+		}
+		return "upd"
+	}
+	// generated streams: now and then an op is first executed on a dropped cache context (`dry`), the chain is restarted
+	// from its exported state (`restart`: module level; `restartapp`: whole app, a few times per run)
+	nops, appEvery := 0, 1800
+	if r.Tier == "thorough" {
+		appEvery = 9000
+	}
+	gen := func(op string) string {
+		nops++
+		f0 := strings.Fields(op)[0]
+		dryOut := ""
+		if (f0 == "upd" || f0 == "updm" || f0 == "vfy" || f0 == "vfa" || f0 == "upgrade" || f0 == "create") && r.Rng.Intn(25) == 0 {
+			dryOut = run("dry " + op)
+		}
+		out := run(op)
+		if dryOut != "" && strings.Fields(strings.TrimPrefix(dryOut, "dry "))[0] != strings.Fields(out)[0] {
+			// the same op in the same state: the verdict of the discarded execution and of the real one must agree
+			w.find(r, "C07:dry-run-verdict-differs:"+f0, "an operation gave another verdict after the same operation had run on a dropped cache context", out, dryOut)
+		}
+		if f0 != "reset" && f0 != "use" && r.Rng.Intn(30) == 0 {
+			if r.Rng.Intn(12) == 0 {
+				run("dry restart")
+			}
+			run("restart")
+		}
+		if f0 != "reset" && nops%appEvery == appEvery/2 {
+			run("restartapp")
+		}
+		return out
+	}
+	c07Exhaustive(g, gen)
+	c07Directed(g, gen)
+	c07DirectedExpiry(g, gen)
+	c07DirectedConfigEdges(g, gen)
+	c07DirectedMultiRev(g, gen)
+	c07DirectedVerifyMatrix(g, gen)
+	c07DirectedHardening(g, run)
 	for i := 0; i < hist/4; i++ {
-		c07HistoryMultiRev(g, run)
+		c07HistoryMultiRev(g, gen)
+	}
+	for i := 0; i < hist/4; i++ {
+		c07HistoryTwoClients(g, gen)
 	}
 	for i := 0; i < hist; i++ {
-		c07History(g, run)
+		c07History(g, gen)
 	}
 }
 
@@ -1713,6 +2146,18 @@ func (g *c07Gen) config() {
 	g.tp = []int64{int64(100 * time.Second), int64(time.Hour), int64(14 * 24 * time.Hour)}[g.rn(3)]
 	g.drift = []int64{1, int64(10 * time.Second), int64(time.Minute)}[g.rn(3)]
 	g.delay = []uint64{0, 0, 1, uint64(5 * time.Second), uint64(time.Hour), 0, 1, uint64(5 * time.Second), uint64(time.Hour), math.MaxUint64 - 1700000000000000000}[g.rn(10)]
+	if g.rn(12) == 0 {
+		g.delay = []uint64{1<<31 - 1, 1<<31 + 1, 1<<32 - 1, 1<<32 + 1, 1<<53 + 1, 1<<63 - 1, 1 << 63, math.MaxUint64, 10000000000000000000}[g.rn(9)]
+		g.r.Count("cfg.delay-boundary")
+	}
+	if g.rn(30) == 0 {
+		g.tp = []int64{math.MaxInt64 - int64(2*time.Hour), 1<<53 + 1, 1<<32 + 1}[g.rn(3)]
+		g.r.Count("cfg.trusting-period-boundary")
+	}
+	if g.rn(30) == 0 {
+		g.drift = []int64{math.MaxInt64, 1<<53 + 1, 1<<31 - 1}[g.rn(3)]
+		g.r.Count("cfg.drift-boundary")
+	}
 	tl := [][2]uint64{{1, 3}, {1, 3}, {1, 2}, {2, 3}, {3, 4}, {1, 1}, {1 << 40, 3 << 40}, {5, 7}, {9, 10}}[g.rn(9)]
 	if g.rn(25) == 0 { // configurations that must not pass validation, and extreme ones that do
 		tl = [][2]uint64{{1, 4}, {4, 3}, {0, 0}, {0, 1}, {3074457345618258603, 9223372036854775808}, {9223372036854775808, 9223372036854775808}, {6148914691236517205, math.MaxUint64},
@@ -2419,4 +2864,370 @@ func c07DirectedVerifyMatrix(g *c07Gen, run func(string) string) {
 		run(g.vfyOp(late, clienttypes.NewHeight(1, 6), 1))
 		run(g.vfaOp(late, clienttypes.NewHeight(1, 6), 1))
 	}
+}
+
+// ---- hardening round: conflicting writes, trusted-height skipping, thresholds, big numbers, restarts, two clients -----------
+
+func (g *c07Gen) fixed(vals []c07V, lo, hi int64, t0 int64) {
+	g.rev, g.chainID = 1, "cpchain-1"
+	g.tp, g.drift, g.delay = int64(time.Hour), int64(10*time.Second), 0
+	g.num, g.den = 1, 3
+	g.now = t0
+	g.blocks = map[int64]*c07Blk{}
+	g.lo, g.hi = lo, hi
+	for i := int64(0); i <= hi-lo; i++ {
+		h := lo + i
+		g.blocks[h] = &c07Blk{h: h, time: t0 + i*1e9, vals: vals, next: vals, app: g.w.pf.root}
+	}
+}
+
+func (g *c07Gen) reqUpd(run func(string) string, q *c07Req, now int64) string {
+	if q.signMask == nil {
+		q.signMask = g.mask(q.blk.vals, 0, 2, 3)
+	}
+	if q.nilVote == nil {
+		q.nilVote = make([]bool, len(q.blk.vals))
+	}
+	if q.chainID == "" {
+		q.chainID = g.chainID
+	}
+	if q.hdrTime == 0 {
+		q.hdrTime = q.blk.time
+	}
+	hd, signers := g.build(q)
+	return run(c07UpdLine(now, hd, signers))
+}
+
+func c07DirectedHardening(g *c07Gen, run func(string) string) {
+	t0 := int64(1700000000) * int64(time.Second)
+	V := c07Vals([]int{1, 2, 3}, []int64{1, 1, 1})
+	E := c07Vals([]int{7, 8, 9}, []int64{5, 5, 5}) // a validator set of the submitter's own making
+	h := func(x uint64) clienttypes.Height { return clienttypes.NewHeight(1, x) }
+	for _, verb := range []string{"upd", "updm"} {
+		vb := verb
+		old := c07Verb
+		c07Verb = func() string { return vb }
+		// (1) a second, different header for a stored height: what is stored afterwards is the accepted header's tuple; the same
+		//     for a height whose consensus state was written by an upgrade
+		g.fixed(V, 5, 14, t0)
+		run("reset")
+		run(g.createOp(5, t0+1e9))
+		g.reqUpd(run, &c07Req{blk: g.blocks[8], trusted: h(5), tvals: V}, t0+20e9)
+		g.reqUpd(run, &c07Req{blk: g.blocks[8], trusted: h(5), tvals: V, mut: 17, pre: true, hdrTime: g.blocks[8].time + 7}, t0+21e9)
+		run(g.upgradeOp(11, t0+22e9))
+		blk := *g.blocks[11]
+		blk.app = tmhash.Sum([]byte("another app hash at the upgraded height"))
+		g.reqUpd(run, &c07Req{blk: &blk, trusted: h(8), tvals: V, hdrTime: blk.time + 3}, t0+23e9)
+		run("restart")
+		g.num, g.den = 6148914691236517205, math.MaxUint64 // an upgrade proposal with a trust level beyond int64: refused by ValidateBasic
+		run(g.upgradeOp(12, t0+23e9))
+		g.num, g.den = 1, 4
+		run(g.upgradeOp(12, t0+23e9))
+		g.num, g.den = 1, 3
+		run(g.vfyOp(t0+24e9, h(8), 1)) // the root now stored at 1-8 is not the fixture's: no membership
+		g.r.Count("directed.conflicting-header")
+		// (1b) a consistent, fully signed header with an empty app hash: what it would store is not a consensus state the module
+		//      accepts (genesis validation), so it is refused; the export stays importable
+		g.fixed(V, 5, 14, t0)
+		run("reset")
+		run(g.createOp(5, t0+1e9))
+		g.reqUpd(run, &c07Req{blk: g.blocks[6], trusted: h(5), tvals: V, mut: 24, pre: true}, t0+20e9)
+		run("restart")
+		g.r.Count("directed.empty-app-hash")
+		// (2) a header at latest+1 whose trusted height is older than the latest height, with a self-made validator set offered as
+		//     trusted validators (of the header's own set and of the genuine set)
+		g.fixed(V, 5, 14, t0)
+		run("reset")
+		run(g.createOp(5, t0+1e9))
+		g.reqUpd(run, &c07Req{blk: g.blocks[8], trusted: h(5), tvals: V}, t0+20e9)
+		evil := &c07Blk{h: 9, time: g.blocks[9].time, vals: E, next: E, app: g.w.pf.root}
+		g.reqUpd(run, &c07Req{blk: evil, trusted: h(5), tvals: E}, t0+21e9)
+		g.reqUpd(run, &c07Req{blk: g.blocks[9], trusted: h(5), tvals: E}, t0+21e9)
+		g.reqUpd(run, &c07Req{blk: evil, trusted: h(8), tvals: E}, t0+21e9)
+		g.reqUpd(run, &c07Req{blk: g.blocks[9], trusted: h(5), tvals: V}, t0+22e9) // the honest one: accepted
+		g.r.Count("directed.latest-plus-one-old-trusted")
+		c07Verb = old
+	}
+	// (3) voting power exactly at / one unit around the trust level of the trusted set (1/3, 2/3, 1) and around 2/3 of the own set
+	for _, lv := range [][2]uint64{{1, 3}, {2, 3}, {1, 1}} {
+		for _, T := range []int64{3, 300, 3 << 40, c07MaxTot - c07MaxTot%3} {
+			thr := T / int64(lv[1]) * int64(lv[0])
+			for _, d := range []int64{-1, 0, 1} {
+				sp := thr + d
+				if sp < 0 || sp > T {
+					continue
+				}
+				tv := c07Vals([]int{1, 2}, []int64{sp, T - sp})
+				own := c07Vals([]int{1, 4, 5}, []int64{1, 5, 5})
+				g.fixed(tv, 5, 9, t0)
+				g.num, g.den = lv[0], lv[1]
+				g.blocks[8] = &c07Blk{h: 8, time: t0 + 3e9, vals: own, next: own, app: g.w.pf.root}
+				run("reset")
+				run(g.createOp(5, t0+1e9))
+				g.reqUpd(run, &c07Req{blk: g.blocks[8], trusted: h(5), tvals: tv}, t0+20e9) // skipping: trust level of the trusted set
+				// adjacent: 2/3 of the header's own set = the trusted set, only the first validator signs
+				thr2 := T / 3 * 2
+				sp2 := thr2 + d
+				ov := c07Vals([]int{1, 2}, []int64{sp2, T - sp2})
+				g.fixed(ov, 5, 9, t0)
+				run("reset")
+				run(g.createOp(5, t0+1e9))
+				g.reqUpd(run, &c07Req{blk: g.blocks[6], trusted: h(5), tvals: ov, signMask: []bool{true, false}}, t0+20e9)
+				g.r.Count("directed.threshold")
+			}
+		}
+	}
+	// (4) clocks exactly at the trusting period and the clock drift
+	g.fixed(V, 5, 9, t0)
+	for _, d := range []int64{-1, 0, 1} {
+		run("reset")
+		run(g.createOp(5, t0+1e9))
+		g.reqUpd(run, &c07Req{blk: g.blocks[6], trusted: h(5), tvals: V}, t0+g.tp+d) // trusted time + trusting period = block time at d = 0
+		run("reset")
+		run(g.createOp(5, t0+1e9))
+		g.reqUpd(run, &c07Req{blk: g.blocks[6], trusted: h(5), tvals: V}, g.blocks[6].time-g.drift+d) // header time = now + drift at d = 0
+		g.r.Count("directed.clock-boundary")
+	}
+	// (5) revisions and heights at the integer boundaries
+	for _, rev := range []uint64{1<<31 - 1, 1<<32 + 1, 1<<53 + 1, 1<<63 - 1, 1 << 63, math.MaxUint64} {
+		g.fixed(V, 5, 9, t0)
+		g.rev, g.chainID = rev, fmt.Sprintf("cpchain-%d", rev)
+		hr := func(x uint64) clienttypes.Height { return clienttypes.NewHeight(rev, x) }
+		run("reset")
+		run(g.createOp(5, t0+1e9))
+		g.reqUpd(run, &c07Req{blk: g.blocks[6], trusted: hr(5), tvals: V}, t0+20e9)
+		g.reqUpd(run, &c07Req{blk: g.blocks[9], trusted: hr(6), tvals: V}, t0+21e9)
+		g.reqUpd(run, &c07Req{blk: g.blocks[9], trusted: hr(5), tvals: V}, t0+21e9)
+		run(g.vfyOp(t0+30e9, hr(5), 1))
+		run(g.vfaOp(t0+30e9, hr(9), 1))
+		run("restart")
+		g.r.Count("directed.big-revision")
+	}
+	for _, h0 := range []int64{1<<31 - 1, 1<<32 - 1, 1<<53 + 1, math.MaxInt64 - 3} {
+		g.fixed(V, h0, h0+3, t0)
+		hh := func(x int64) clienttypes.Height { return clienttypes.NewHeight(1, uint64(x)) }
+		run("reset")
+		run(g.createOp(h0, t0+1e9))
+		g.reqUpd(run, &c07Req{blk: g.blocks[h0+1], trusted: hh(h0), tvals: V}, t0+20e9)
+		g.reqUpd(run, &c07Req{blk: g.blocks[h0+3], trusted: hh(h0+1), tvals: V}, t0+21e9) // MaxInt64 for the last h0
+		g.reqUpd(run, &c07Req{blk: g.blocks[h0+2], trusted: hh(h0+3), tvals: V}, t0+22e9) // below the trusted height
+		run(g.vfyOp(t0+30e9, hh(h0+3), 1))
+		run(g.vfaOp(t0+30e9, clienttypes.NewHeight(1, uint64(h0+3)+1), 1))
+		run("restart")
+		g.r.Count("directed.big-height")
+	}
+	for _, lh := range []uint64{1 << 63, 1<<63 + 1, math.MaxUint64} { // latest heights no int64 header height can reach
+		g.fixed(V, 5, 9, t0)
+		g.blocks[int64(math.MaxInt64)] = &c07Blk{h: math.MaxInt64, time: t0 + 9e9, vals: V, next: V, app: g.w.pf.root}
+		run("reset")
+		b := g.blocks[5]
+		run(fmt.Sprintf("create %s 1 3 %d %d 0 1 %d %d %s %s %d", hxs(g.chainID), g.tp, g.drift, lh, b.time, hx(b.app), hx(c07HashVals(b.next)), t0+1e9))
+		g.reqUpd(run, &c07Req{blk: g.blocks[int64(math.MaxInt64)], trusted: clienttypes.NewHeight(1, lh), tvals: V}, t0+20e9)
+		g.reqUpd(run, &c07Req{blk: g.blocks[6], trusted: clienttypes.NewHeight(1, lh), tvals: V}, t0+20e9)
+		run(g.vfyOp(t0+30e9, clienttypes.NewHeight(1, lh), 1))
+		run("restart")
+		g.r.Count("directed.height-beyond-int64")
+	}
+	// (6) a validator set of more than a hundred entries: exactly two thirds / one more than two thirds sign
+	{
+		n := 129
+		keys := make([]int, n)
+		pw := make([]int64, n)
+		for i := range keys {
+			keys[i], pw[i] = i+1, 1
+		}
+		big := c07Vals(keys, pw)
+		for _, k := range []int{86, 87} {
+			sm := make([]bool, n)
+			for i := 0; i < k; i++ {
+				sm[(i*7)%n] = true
+			}
+			cnt := 0
+			for _, b := range sm {
+				if b {
+					cnt++
+				}
+			}
+			for i := 0; cnt < k; i++ {
+				if !sm[i] {
+					sm[i] = true
+					cnt++
+				}
+			}
+			g.fixed(big, 5, 9, t0)
+			run("reset")
+			run(g.createOp(5, t0+1e9))
+			g.reqUpd(run, &c07Req{blk: g.blocks[6], trusted: h(5), tvals: big, signMask: sm}, t0+20e9)
+			g.reqUpd(run, &c07Req{blk: g.blocks[9], trusted: h(5), tvals: big, signMask: sm}, t0+21e9)
+			g.r.Count("directed.big-validator-set")
+		}
+	}
+	// (7) restart after back-fills, after pruning, after an upgrade to another revision, with a state left above the latest height
+	{
+		g.fixed(V, 5, 30, t0)
+		g.tp = int64(100 * time.Second)
+		for hh := int64(5); hh <= 30; hh++ {
+			g.blocks[hh].time = t0 + (hh-5)*10e9
+		}
+		run("reset")
+		run(g.createOp(5, t0+1e9))
+		g.reqUpd(run, &c07Req{blk: g.blocks[9], trusted: h(5), tvals: V}, t0+45e9)
+		g.reqUpd(run, &c07Req{blk: g.blocks[7], trusted: h(5), tvals: V}, t0+46e9) // back-fill
+		run("restart")
+		g.reqUpd(run, &c07Req{blk: g.blocks[16], trusted: h(9), tvals: V}, t0+112e9) // 1-5 (time t0) is expired at t0+100s: pruned
+		run("restart")
+		run("dry restart")
+		g.reqUpd(run, &c07Req{blk: g.blocks[8], trusted: h(7), tvals: V}, t0+113e9) // back-fill after the restart
+		b := g.save()
+		g.chainID, g.rev = "cpchain-2", 2
+		g.blocks = map[int64]*c07Blk{3: {h: 3, time: t0 + 113e9, vals: V, next: V, app: g.w.pf.root}, 4: {h: 4, time: t0 + 114e9, vals: V, next: V, app: g.w.pf.root}}
+		g.lo, g.hi = 3, 4
+		run(g.upgradeOp(3, t0+114e9))
+		run("restart")
+		g.reqUpd(run, &c07Req{blk: g.blocks[4], trusted: clienttypes.NewHeight(2, 3), tvals: V}, t0+115e9)
+		g.use(b)
+		g.reqUpd(run, &c07Req{blk: g.blocks[17], trusted: h(16), tvals: V}, t0+170e9) // old revision after upgrade and restart
+		run(g.upgradeOp(9, t0+171e9))                                                   // back to revision 1 at 1-9: 1-16, 1-17, 2-x are stored above the latest height
+		run("restart")
+		run(g.vfyOp(t0+172e9, h(17), 1))
+		run(g.vfaOp(t0+172e9, h(9), 1))
+		run("restartapp")
+		run(g.vfaOp(t0+172e9, h(9), 1))
+		g.reqUpd(run, &c07Req{blk: g.blocks[10], trusted: h(9), tvals: V}, t0+173e9)
+		g.r.Count("directed.restart-scenario")
+	}
+}
+
+// two Tendermint clients in one store: of two different chains, or of the same chain under two names
+func c07HistoryTwoClients(g *c07Gen, run func(string) string) {
+	r := g.r
+	sameChain := g.rn(2) == 0
+	t0 := int64(1700000000)*int64(time.Second) + int64(g.rn(1000000))
+	type side struct {
+		name  string
+		sim   *c07Sim
+		tp    int64
+		delay uint64
+		num   uint64
+		den   uint64
+	}
+	mk := func(name, chain string, rev uint64, lo int64) *side {
+		sd := &side{name: name}
+		sd.tp = []int64{int64(time.Hour), int64(14 * 24 * time.Hour)}[g.rn(2)]
+		sd.delay = []uint64{0, 1, uint64(5 * time.Second)}[g.rn(3)]
+		tl := [][2]uint64{{1, 3}, {1, 2}, {2, 3}}[g.rn(3)]
+		sd.num, sd.den = tl[0], tl[1]
+		g.chainID, g.rev = chain, rev
+		g.buildChain(lo, 24, t0, int64(time.Hour)/int64(400+g.rn(400)))
+		sd.sim = g.save()
+		return sd
+	}
+	a := mk(c07Default, "cpchain-1", 1, int64(1+g.rn(50)))
+	other := []string{"cpchainb", "mirror", "CPCHAIN"}[g.rn(3)]
+	var b *side
+	if sameChain {
+		b = &side{name: other, sim: a.sim, tp: a.tp, delay: a.delay, num: a.num, den: a.den}
+		if g.rn(2) == 0 { // the same chain, tracked with another configuration
+			b.delay = uint64(time.Second)
+			b.num, b.den = 2, 3
+		}
+		r.Count("two-clients.same-chain")
+	} else {
+		b = mk(other, []string{"otherchain-4", "cpchain-2", "cpchain"}[g.rn(3)], 0, int64(1+g.rn(50)))
+		_, b.sim.rev, _ = c07Rev(b.sim.chainID)
+		r.Count("two-clients.different-chains")
+	}
+	g.drift = int64(10 * time.Second)
+	sel := func(sd *side) {
+		g.use(sd.sim)
+		g.tp, g.delay, g.num, g.den = sd.tp, sd.delay, sd.num, sd.den
+		run("use " + hxs(sd.name))
+	}
+	run("reset")
+	g.now = t0 + 1000
+	for _, sd := range []*side{a, b} {
+		sel(sd)
+		h0 := sd.sim.lo + int64(g.rn(4))
+		if g.now < sd.sim.blocks[h0].time {
+			g.now = sd.sim.blocks[h0].time + 1
+		}
+		if run(g.createOp(h0, g.now)) == "rej" {
+			return
+		}
+	}
+	if g.rn(6) == 0 { // a create proposal for a taken name is refused
+		run(g.createOp(b.sim.lo, g.now))
+	}
+	steps := 6 + g.rn(10)
+	for s := 0; s < steps; s++ {
+		sd := a
+		if g.rn(2) == 0 {
+			sd = b
+		}
+		sel(sd)
+		stored := g.storedHeights()
+		if len(stored) == 0 {
+			continue
+		}
+		g.now += 1 + int64(g.rn(2e9))
+		if g.rn(5) == 0 {
+			hh := stored[g.rn(len(stored))]
+			sn := g.w.snap(g.w.ctx)
+			now := g.now
+			if pt, ok := sn.ptime[hh]; ok {
+				now = int64(pt+sd.delay) + int64(g.rn(3)) - 1
+			}
+			run(g.vfOp(g.rn(2) == 0, now, hh, []int{1, 1, 2, 0}[g.rn(4)]))
+			continue
+		}
+		ti := len(stored) - 1
+		if g.rn(3) == 0 {
+			ti = g.rn(len(stored))
+		}
+		trusted := stored[ti]
+		tgt := int64(trusted.RevisionHeight) + 1 + int64(g.rn(4))
+		if _, onChain := sd.sim.blocks[tgt]; !onChain || trusted.RevisionNumber != sd.sim.rev {
+			continue
+		}
+		if g.now < sd.sim.blocks[tgt].time {
+			g.now = sd.sim.blocks[tgt].time
+		}
+		mut := 0
+		if g.rn(10) == 0 {
+			mut = 1 + g.rn(c07NMut-1)
+		}
+		blk := g.block(tgt)
+		q := &c07Req{blk: blk, trusted: trusted, tvals: g.block(int64(trusted.RevisionHeight)).next, mut: mut}
+		hd, signers := g.build(g.fill(q))
+		line := c07UpdLine(g.now, hd, signers)
+		out := run(line)
+		if sameChain && out != "rej" && g.rn(2) == 0 {
+			// the very same header is then delivered to the other client of that chain
+			o := b
+			if sd == b {
+				o = a
+			}
+			sel(o)
+			run(line)
+			r.Count("two-clients.same-header-to-both")
+		}
+	}
+	run("use " + hxs(c07Default))
+	r.Count("two-clients.history")
+}
+
+func (g *c07Gen) fill(q *c07Req) *c07Req {
+	if q.signMask == nil {
+		q.signMask = g.mask(q.blk.vals, 0, 2, 3)
+	}
+	if q.nilVote == nil {
+		q.nilVote = make([]bool, len(q.blk.vals))
+	}
+	if q.chainID == "" {
+		q.chainID = g.chainID
+	}
+	if q.hdrTime == 0 {
+		q.hdrTime = q.blk.time
+	}
+	return q
 }
